@@ -29,5 +29,3 @@ json.dump({'id': '$id', 'property': '$prop', 'baseline_suite_with_change': """$b
            'ran': ['python3 tools/check_baseline.py --repo <worktree>', 'demo.py with and without the change (git apply -R / git apply of patch.diff)', 'VERIF_REPO=<worktree> ./check $prop --tier quick'],
            'needs_to_manifest': 'see MUTANT.md'}, open('$d/meta.json', 'w'), indent=1)
 PY
-# restore evidence of the real tree for this property
-./check $prop --tier quick > /dev/null 2>&1
